@@ -40,13 +40,16 @@ TECHNIQUE = "coverage-guided fuzzing (libFuzzer, ASan+UBSan) + grammar-based pro
 LEVEL_TEXT = ("Exploration: tens of thousands (quick) to about a million (thorough) sanitizer-checked executions per run, each under the four-clause oracle; "
               "the enumerated fault list is complete for the listed path kinds x streams x entry points but the property is universally quantified "
               "over byte sequences, so this is evidence, not proof.")
-FLOORS = {"quick": 12000, "thorough": 120000}
+FLOORS = {"quick": 6000, "thorough": 100000}
 SHARDS = {"quick": 8, "thorough": 16}
 
-# executions per fuzz job (bounded by count, never by wall clock); measured ~100-140 exec/s/core under ASan+UBSan
-FUZZ_RUNS = {"quick": {"fuzz_run": 6500, "fuzz_db": 2600}, "thorough": {"fuzz_run": 62000, "fuzz_db": 26000}}
-EMPTY_LEG_RUNS = {"quick": 1500, "thorough": 10000}          # fuzz_run from an empty corpus (dictionary only), shard 0
-GRAMMAR_CASES = {"quick": 330, "thorough": 3000}              # per shard
+# executions per fuzz job (bounded by count, never by wall clock).  Measured on this machine (clang 14, -O1, ASan+UBSan+
+# libFuzzer instrumentation): 40 executions per CPU-second for fuzz_run, 35 for fuzz_db (5 ms LoadDatabaseString of the
+# small database at the start of every execution + 6 ms reload and 1-20 ms probe after every failed call + the call itself),
+# 110 for the empty-corpus leg, 30 ms per grammar case.  Quick is sized for about 75 CPU-seconds per shard, thorough for 800.
+FUZZ_RUNS = {"quick": {"fuzz_run": 2600, "fuzz_db": 2200}, "thorough": {"fuzz_run": 28000, "fuzz_db": 24000}}
+EMPTY_LEG_RUNS = {"quick": 400, "thorough": 4000}            # fuzz_run from an empty corpus (dictionary only), shard 0
+GRAMMAR_CASES = {"quick": 150, "thorough": 1500}              # per shard
 FUZZ_TIMEOUT_S = {"quick": 10, "thorough": 25}
 MAX_LEN = {"fuzz_run": 6002, "fuzz_db": 12000}
 BATCH = 200
@@ -103,10 +106,18 @@ def classify(text, rc):
             return "noise", name, name
     m = re.search(r"C08-ORACLE: (\w+): (.*)", text)
     if m:
-        return "violation", "oracle:" + m.group(1), m.group(2)[:1500]
+        sig = "oracle:" + m.group(1)
+        if m.group(1) == "escaping_exception":      # name the exception: "... threw std::exception: <what()>"
+            w = re.search(r"threw (?:a )?([\w:-]+(?: exception)?)(?:: (.*))?", m.group(2))
+            if w:
+                sig += ":" + re.sub(r"[^A-Za-z_:]+", "_", (w.group(2) or w.group(1)))[:48].strip("_")
+        return "violation", sig, m.group(2)[:1500]
     m = re.search(r"C08-UBSAN: ([\w-]+): (\S+?):(\d+):\d+: (.*)", text)
     if m:
-        return "violation", "ubsan:%s@%s:%s" % (m.group(1), os.path.basename(m.group(2)), m.group(3)), ("UndefinedBehaviorSanitizer: " + m.group(4) + "\n" + _report_tail(text, m.start()))[:3000]
+        loc = "%s:%s" % (os.path.basename(m.group(2)), m.group(3))
+        if "/src/" not in m.group(2):         # reported inside a system header (std::vector::operator[] ...): name the library frame
+            loc = _where(text, m.start()) or loc
+        return "violation", "ubsan:%s@%s" % (m.group(1), loc), ("UndefinedBehaviorSanitizer: " + m.group(4) + "\n" + _report_tail(text, m.start()))[:3000]
     m = re.search(r"ERROR: AddressSanitizer: ([\w-]+)", text)
     if m:
         where = _where(text, m.start())
@@ -131,6 +142,24 @@ def _where(text, pos):
 def _report_tail(text, pos):
     a = text.rfind("\n", 0, pos) + 1
     return "\n".join(text[a:].split("\n")[:22])
+
+
+_known = None
+
+
+def known_signature(sig):
+    """-> id of the recorded known finding whose signature pattern matches, else None (vp/c08_known.json; every entry
+    has a strict replay replays/C08/known/<id>.json that fails on the unchanged tree)"""
+    global _known
+    if _known is None:
+        try:
+            _known = [(e["id"], re.compile(e["match"])) for e in json.load(open(os.path.join(lib.VERIF, "vp", "c08_known.json")))["signatures"]]
+        except OSError:
+            _known = []
+    for kid, rx in _known:
+        if rx.search(sig):
+            return kid
+    return None
 
 
 def read_stats(path):
@@ -284,6 +313,11 @@ def handle_crash(ctx, target, path, seen_sig):
     kinds = [r[0] for r in res]
     if all(k == "violation" for k in kinds):
         sig = res[0][1]
+        kid = known_signature(sig)
+        if kid:
+            ctx.event("A:known_finding:" + kid)
+            ctx.extra["known_finding_stops"] = ctx.extra.get("known_finding_stops", 0) + 1
+            return
         if sig in seen_sig:
             ctx.event("A:duplicate_crash_signature")
             return
@@ -446,6 +480,7 @@ def api_classes(case, res):
     cl = ["%s:call=%s" % (eng, c) for c in res[2]]
     if eng == "B":
         cl.append("B:entry=" + meta.get("entry", "?"))
+        cl.append("B:db=" + ("small.dat" if meta.get("db", "small.dat") == "small.dat" else "shipped"))
         cl.append("B:mutations=%d" % len([m for m in meta.get("mutations", []) if not m.endswith(("_none", "_noop"))]))
         if "grammar" in meta.get("blocks", []):
             cl.append("B:has_grammar_block")
@@ -477,6 +512,9 @@ def check_api(case, ctx, persistent):
         raise Discard("resource:" + sig)
     if kind == "harness":
         raise RuntimeError("apirunner harness error: " + msg)
+    if not case.get("strict") and known_signature(sig):
+        ctx.extra["known_finding_stops"] = ctx.extra.get("known_finding_stops", 0) + 1
+        raise Discard("known:" + known_signature(sig))
     viol = None
     if not persistent or not hist:
         viol = (sig, msg)
